@@ -749,3 +749,86 @@ def rule_a_ind(ctx):
                    "P-only (nothing else changes o upward), S-shrink / S-reserve (the other producers of free space), T-grow (installation only when unsplit)")
     R.floor(6, "lemmas")
     return R
+
+
+# ---------------------------------------------------------------------------
+# S-room: the no-grow insertion of a caller's element is only reached when the main table is known to have room
+# ---------------------------------------------------------------------------
+def rule_s_room(ctx):
+    R = RuleResult("S-room", "hashbrown's insert_no_grow must find a free slot (it does not check): a caller-supplied element is put into the main table with it "
+                   "only on the `capacity() != len()` edge of a test of that same table (nothing touching the table in between), directly or through "
+                   "griddle's unsafe wrapper, whose every call site then carries the obligation; an advisory size hint or an earlier reserve is not accepted")
+    from rules_typestate import full_test_switches
+    from rules_protocol import between_blocks
+    mv = movers(ctx)
+    # sites: (body, call) that put a non-mover element into MAIN without growing
+    work = []
+    for body, c, role, recv in hb_calls(ctx):
+        if c.tname == HBT + "insert_no_grow" and role == MAIN and not body.is_cleanup(c.loc.bb):
+            if body.path in mv and mv[body.path]["ins"].loc == c.loc:
+                continue          # the mover's own insertion: room is the headroom invariant (S-grow, A-ind)
+            work.append((body, c, ctx.resolve(body, recv)[1]))
+    seen = set()
+    n = 0
+    while work:
+        body, c, recv = work.pop()
+        if (body.path, c.loc.bb) in seen:
+            continue
+        seen.add((body.path, c.loc.bb))
+        n += 1
+        key = "%s:%s" % (body.path, c.tname)
+        sp = None
+        if recv is not None:
+            sp0 = ctx.roles.s_prefix(recv)
+            sp = (sp0 if sp0 is not None else recv).strip_refs().key()      # the split table the element goes into
+        guard = None
+        for bb, full_t in full_test_switches(ctx, body).items():
+            t = body.term(bb)
+            nf = [s_ for s_ in body.succs(bb) if s_ != full_t]
+            if len(nf) != 1 or body.preds(nf[0], True) != [bb]:
+                continue
+            if not (nf[0] == c.loc.bb or nf[0] in body.dom().get(c.loc.bb, set())):
+                continue
+            # the test is about the same table
+            d = body.source_def(t["discr"])
+            same = False
+            if d is not None and d[1] == "assign" and d[2]["rv"]["k"] == "binop":
+                for o in (d[2]["rv"]["a"], d[2]["rv"]["b"]):
+                    sd = body.source_def(o)
+                    if sd is not None and sd[1] == "call":
+                        q = ctx.resolve(body, ctx.call_at(body, sd[0].bb).arg_path(0))[1]
+                        qs = ctx.roles.s_prefix(q) if q is not None else None
+                        if sp is not None and qs is not None and qs.strip_refs().key() == sp:
+                            same = True
+            if not same:
+                continue
+            pe = PathExec(ctx, body)
+            dirty = None
+            for x in between_blocks(body, bb, c.loc.bb):
+                if body.term(x)["k"] == "call":
+                    cx = ctx.call_at(body, x)
+                    if pe.mutates_tables(cx):
+                        dirty = cx
+            if dirty is None:
+                guard = bb
+                break
+        if guard is not None:
+            R.inst(fn=body.path, site=c.where(), callee=c.tname, verdict="ok: on the has-room edge of the capacity test at %s" % body.where(Loc(guard, len(body.stmts(guard)))))
+            continue
+        if body.raw.get("unsafe") and body.kind != "Closure":
+            # an unsafe wrapper: its callers inherit the obligation
+            callers = 0
+            for b2 in ctx.facts.bodies.values():
+                for c2 in ctx.calls(b2):
+                    lc = c2.local_callee()
+                    if lc is not None and lc.path == body.path and not b2.is_cleanup(c2.loc.bb):
+                        callers += 1
+                        work.append((b2, c2, ctx.resolve(b2, c2.arg_path(0))[1] if c2.arg_path(0) is not None else None))
+            R.inst(fn=body.path, site=c.where(), callee=c.tname, verdict="obligation passed to the %d caller(s) of this unsafe function" % callers)
+            continue
+        R.inst(fn=body.path, site=c.where(), callee=c.tname, verdict="VIOLATION")
+        R.viol(key, c.where(), "%s puts an element into the main table with %s on a path where nothing has established that the table has a free slot "
+               "(no `capacity() != len()` test of that table dominates the call): with a full table hashbrown's bookkeeping underflows (debug: panic, "
+               "release: out-of-bounds write or an endless probe)" % (body.path, c.tname))
+    R.floor(1, "no-grow insertions of caller-supplied elements")
+    return R
